@@ -54,7 +54,9 @@ class TabularQ(AbstractQPolicy):
         return CounterState(jnp.asarray(0, dtype=int))
 
     def q_values(self, state, observation):
-        return state, self.Q[observation]
+        # the values depend on the policy's own state (factor 1 + c): evaluating a network with the wrong one of the
+        # buffer's (states, next_states) is observable
+        return state, self.Q[observation] * (1.0 + state.c.astype(float))
 
 
 def make_batch(S, A, rows):
@@ -68,7 +70,7 @@ def make_batch(S, A, rows):
         tmpl,
         (jnp.full((N,), B), jnp.asarray(rows["obs"], dtype=int), jnp.asarray(rows["nobs"], dtype=int), jnp.asarray(rows["act"], dtype=int),
          jnp.asarray(rows["rew"], dtype=float), jnp.asarray(rows["done"], dtype=bool), jnp.asarray(rows["timeout"], dtype=bool),
-         CounterState(z), CounterState(z)),
+         CounterState(z), CounterState(z + 1)),  # acting state c = 0, successor state c = 1
     )
 
 
@@ -111,7 +113,8 @@ def clause_dqn(cases, ctx: Ctx):
         obs, act, nobs = rows["obs"].astype(int), rows["act"].astype(int), rows["nobs"].astype(int)
         q_sel = Qon[n, obs, act]
         a_star = Qon[n, nobs].argmax(-1)
-        v_next = Qtg[n, nobs, a_star]
+        v_next = 2.0 * Qtg[n, nobs, a_star]  # both networks see the successor policy state (c = 1: factor 2)
+        v_next_wrong_state = Qtg[n, nobs, a_star]
         terminated = (rows["done"] > 0) & ~(rows["timeout"] > 0)
         y = rows["rew"] + gam[:, None] * (1.0 - terminated) * v_next
         err = q_sel - y
@@ -119,15 +122,17 @@ def clause_dqn(cases, ctx: Ctx):
         # discriminating alternatives (for signatures only)
         y_boot_all = rows["rew"] + gam[:, None] * v_next
         y_done = rows["rew"] + gam[:, None] * (1.0 - (rows["done"] > 0)) * v_next
-        y_vanilla = rows["rew"] + gam[:, None] * (1.0 - terminated) * Qtg[n, nobs].max(-1)
-        y_online = rows["rew"] + gam[:, None] * (1.0 - terminated) * Qon[n, nobs, a_star]
+        y_vanilla = rows["rew"] + gam[:, None] * (1.0 - terminated) * 2.0 * Qtg[n, nobs].max(-1)
+        y_online = rows["rew"] + gam[:, None] * (1.0 - terminated) * 2.0 * Qon[n, nobs, a_star]
+        y_state = rows["rew"] + gam[:, None] * (1.0 - terminated) * v_next_wrong_state
         # the statement does not fix the scale of the loss: 1/2 (lerax today) and 1 are both accepted, per case
         kap = np.where(refs.close(loss, mse, 1e-5) & ~refs.close(loss, 0.5 * mse, 1e-5), 1.0, 0.5)
         KAPPA.setdefault("dqn", set()).update(np.unique(kap[mse > 0]).tolist())
         bad = ~refs.close(loss, kap * mse, 1e-5)
         for k in np.nonzero(bad)[0][:6]:
             alt = {"bootstraps-through-termination": y_boot_all, "no-bootstrap-through-truncation": y_done,
-                   "target-argmax-from-target-net": y_vanilla, "evaluated-with-online-net": y_online}
+                   "target-argmax-from-target-net": y_vanilla, "evaluated-with-online-net": y_online,
+                   "target-evaluated-at-the-acting-policy-state": y_state}
             sig = "C07/dqn/loss"
             for name, ya in alt.items():
                 if refs.close(loss[k], kap[k] * ((q_sel[k] - ya[k]) ** 2).mean(), 1e-5):
